@@ -484,6 +484,16 @@ Theorem GB_accepts_exactly_the_published_rule c :
 Proof. exact (gb_commercial_iff_spec_9 c). Qed.
 Print Assumptions GB_accepts_exactly_the_published_rule.
 
+(* GB, all forms: 9 digits, 12 digits (with a branch identifier), GD000-GD499, HA500-HA999 *)
+Theorem GB_all_forms_accepts_exactly_the_published_rule c : valid_GB c = true <-> c = [] \/ Spec_GB c.
+Proof. exact (valid_GB_iff_spec c). Qed.
+Print Assumptions GB_all_forms_accepts_exactly_the_published_rule.
+
+(* AE: format only (15 digits) *)
+Theorem AE_accepts_exactly_the_published_rule c : valid_AE c = true <-> c = [] \/ Spec_AE c.
+Proof. exact (valid_AE_iff_spec c). Qed.
+Print Assumptions AE_accepts_exactly_the_published_rule.
+
 Example published_rules_are_satisfiable :
   Spec_NL (bs "029729975B45") /\ Spec_GB_commercial (bs "930000297").
 Proof.
